@@ -163,6 +163,8 @@ def _nice_model(ctx, extra=None):
     try:
         if extra is not None:
             s.add(extra)
+        for cid in list(ctx.deferred):
+            s.add(ctx.deferred[cid][1])        # definitions of sqrt / cbrt symbols: the observations mention them
         for name in ctx.input_order:
             spec = ctx.inputs[name]
             if spec[0] == "real":
